@@ -411,6 +411,43 @@ def run(prog, ctx):
                 res.violate("C05.M", "C05.M|kxp", "move_window does not refresh KXP exactly when new_offset & 7 == 0", mw.id)
             else:
                 res.undecided += 1
+    # ---------------- C05.M (table) the window and the surprising-value table describe the matrix *together*: entries are relative to
+    # the window's offset (1-bits above it, 0-bits below it).  A path that advances `window_offset` without going through a call that
+    # rewrites the table leaves entries that mean something else under the new offset (or misses the rows whose lowest window bit
+    # turns into a surprising zero).  By paths: entry -> store -> return avoiding every block that calls into the table mutably.
+    if mw is not None:
+        tab_calls = set()
+        for b, site in mw.calls():
+            cal = site.get("callee") or ""
+            tys = []
+            g_ = prog.fns.get(cal)
+            if g_ is not None and g_.argc >= 1:
+                tys = [g_.local_ty(1)]
+            if any(t.startswith("&mut") and "PairTable" in t for t in tys) or (cal.rsplit("::", 1)[-1].startswith("mut_") and "table" in cal):
+                tab_calls.add(b)
+        stores = [bb for (ff, bb, kind, place, rv, span, adt, fld) in sym.field_stores(prog, adt=S, field="window_offset", fns=[mw]) if kind == "assign"]
+        for bb in stores:
+            n_m += 1
+            if not tab_calls:
+                res.tri(None, "C05.M", "C05.M|table", "no call into the pair table found in move_window")
+                continue
+            # a path entry -> bb avoiding the table calls, and bb -> return avoiding them
+            seen = {0}
+            st_ = [0]
+            hit = (0 == bb)
+            while st_ and not hit:
+                x = st_.pop()
+                for y in mw.succs(x):
+                    if y in seen or y in tab_calls:
+                        continue
+                    if y == bb:
+                        hit = True
+                        break
+                    seen.add(y)
+                    st_.append(y)
+            bad = hit and bb not in tab_calls and s.reaches_exit_avoiding(bb, tab_calls)
+            res.tri(not bad, "C05.M", "C05.M|table", "move_window has a path that stores the new window_offset and returns without rewriting the surprising-value table: "
+                    "the table's entries are relative to the old offset and the rows whose lowest window bit is 0 lose their surprising zero", mw.id)
     res.rule("C05.M", n_m, 4, "window-move obligations")
     # ---------------- C05.D deletion from the open-addressing pair table: the run after the freed slot is re-inserted up to
     # the next EMPTY slot; nothing else may end the scan (an item left behind a hole is unreachable for lookup)
